@@ -89,6 +89,15 @@ func TestClasses(t *testing.T) {
 		{"x=$(trap 'echo s' EXIT)", true},
 		{"{ trap 'echo s' EXIT; } | cat", true},
 	})
+	run("ForContinuesAfterReturn", mk(func(s string) bool { f, err := Parse(s); return err == nil && ForContinuesAfterReturn(f) }), []tc{
+		{"f() { for x in a b; do return 3; done; }", true},
+		{"f() { for x in a b; do (exit 3); done; }", false},
+		{"f() { while x; do return 3; done; }", false},
+		{"for x in a; do if y; then exit 1; fi; done", true},
+		{"for x in a; do g() { return 1; }; done", false},
+		{"for ((i=0;i<3;i++)); do for x in a; do :; done; exit 2; done", true},
+		{"for x in a; do echo $x | exit 3; done", true},
+	})
 	run("ErrTrapRepeated", mk(func(s string) bool { f, err := Parse(s); return err == nil && ErrTrapRepeated(f) }), []tc{
 		{"trap 'echo e' ERR; { false; }", true},
 		{"trap 'echo e' ERR; false; echo x", false},
